@@ -127,16 +127,25 @@ fn drain_blobs(
 }
 //@ END
 
-/// table::MultiWriter of the compaction: the entries written and the blob links registered, in order
-struct TableWriter { ghost items: Seq<InternalValue>, ghost links: Seq<BlobIndirection> }
+/// table::MultiWriter of the compaction: the entries written and the blob links registered, in order; which output table is current,
+/// which table each written entry went to and which table each link was attached to (same model as units blob_links, kv_separation)
+struct TableWriter { ghost items: Seq<InternalValue>, ghost links: Seq<BlobIndirection>, ghost cur: int, ghost item_tables: Seq<int>, ghost link_tables: Seq<int> }
 impl TableWriter {
+    /// write may first rotate to a fresh table (src/table/multi_writer.rs: write; the links registered so far stay with the finished one: unit table_rotate)
     #[verifier::external_body]
     fn write(&mut self, item: InternalValue) -> (r: Result<(), Error>)
-        ensures final(self).links == old(self).links, r is Ok ==> final(self).items == old(self).items.push(item), r is Err ==> final(self).items == old(self).items
+        ensures final(self).links == old(self).links, r is Ok ==> final(self).items == old(self).items.push(item), r is Err ==> final(self).items == old(self).items,
+            final(self).link_tables == old(self).link_tables, final(self).cur >= old(self).cur,
+            r is Ok ==> final(self).item_tables == old(self).item_tables.push(final(self).cur), r is Err ==> final(self).item_tables == old(self).item_tables,
     { unimplemented!() }
     #[verifier::external_body]
-    fn register_blob(&mut self, indirection: BlobIndirection) ensures final(self).items == old(self).items, final(self).links == old(self).links.push(indirection) { unimplemented!() }
+    fn register_blob(&mut self, indirection: BlobIndirection)
+        ensures final(self).items == old(self).items, final(self).links == old(self).links.push(indirection),
+            final(self).cur == old(self).cur, final(self).item_tables == old(self).item_tables, final(self).link_tables == old(self).link_tables.push(old(self).cur),
+    { unimplemented!() }
 }
+/// the entry just written and the link just registered went to the same output table
+spec fn linked_with_item(w: TableWriter) -> bool { w.item_tables.len() > 0 && w.link_tables.len() > 0 && w.item_tables.last() == w.link_tables.last() }
 /// one record of the new blob file(s)
 pub ghost struct Rec { pub key: Seq<u8>, pub seqno: SeqNo, pub value: Seq<u8>, pub ulen: u32 }
 /// vlog BlobFileWriter (multi-writer, unit blob_multi_writer C08.16): the handle returned names where the record went
@@ -201,7 +210,7 @@ impl RelocatingCompaction {
     }
 //@ END
 
-//@ FROM src/compaction/flavour.rs :: impl CompactionFlavour for RelocatingCompaction :: fn write :: OBL C08.17, C12.25
+//@ FROM src/compaction/flavour.rs :: impl CompactionFlavour for RelocatingCompaction :: fn write :: OBL C08.17, C12.25, C09.12
 //@ SUBST `let mut reader = & item . value [ .. ] ;` ==> ``
 //@ SUBST `BlobIndirection :: decode_from ( & mut reader ) . inspect_err ( | e | { $1 } ) ?` ==> `BlobIndirection::decode_value(&item.value)?`
 //@ SUBST `BlobIndirection :: decode_from ( & mut reader ) . inspect_err ( | e | { } ) ?` ==> `BlobIndirection::decode_value(&item.value)?`
@@ -216,7 +225,12 @@ impl RelocatingCompaction {
             // an ordinary entry passes through; the blob side is untouched
             r is Ok && item.key.value_type != ValueType::Indirection ==> final(self).inner.table_writer.items == old(self).inner.table_writer.items.push(item)
                 && final(self).inner.table_writer.links == old(self).inner.table_writer.links && final(self).blob_writer == old(self).blob_writer && final(self).blob_scanner.rest() == old(self).blob_scanner.rest(),
-            r is Ok && item.key.value_type == ValueType::Indirection ==> exists|old_ptr: BlobIndirection| #[trigger] ind_ok(*old(self), *final(self), item, old_ptr),/*-*/
+            r is Ok && item.key.value_type == ValueType::Indirection ==> exists|old_ptr: BlobIndirection| #[trigger] ind_ok(*old(self), *final(self), item, old_ptr),
+            // C09.12: a pointer entry gets exactly one link, attached to the table the entry was written into; other entries get none
+            r is Ok ==> final(self).inner.table_writer.item_tables.len() == old(self).inner.table_writer.item_tables.len() + 1,
+            r is Ok && item.key.value_type == ValueType::Indirection ==> final(self).inner.table_writer.link_tables.len() == old(self).inner.table_writer.link_tables.len() + 1 && linked_with_item(final(self).inner.table_writer),   // @OBL C09.12
+            r is Ok && item.key.value_type != ValueType::Indirection ==> final(self).inner.table_writer.link_tables == old(self).inner.table_writer.link_tables,   // @OBL C09.12
+        /*-*/
     {
         if item.key.value_type.is_indirection() {
 
